@@ -15,6 +15,8 @@ StartLike(st, e, r) ==
     IF r.ok THEN (IF e.raised THEN Bad(st, "start raised although a period is known") ELSE Fin(st, e, r.pr))
     ELSE (IF ~e.raised THEN Bad(st, "start without any period did not raise") ELSE Fin(st, e, r.pr))
 QStep(st, e, t) ==
+    IF e.raised /\ e.e \notin {"sync_start", "pdo_start"} THEN Bad(st, "call raised: " \o e.e)
+    ELSE
     CASE e.e = "sync_start" -> StartLike(st, e, SyncStart(st, e.period_us))
       [] e.e = "sync_stop" -> Fin(st, e, SyncStop(st))
       [] e.e = "pdo_start" -> StartLike(st, e, PdoStart(st, e.period_us))
